@@ -200,6 +200,7 @@ func c12Run(t *testing.T, sc c12Scenario, c *vsched.Chooser) vsched.Outcome {
 		passivated := false
 		seenPostStops := 0
 		gateReleased := false
+		racyCut := false
 		var killDone atomic.Bool
 		var viol []vsched.Violation
 		fail := func(sig, format string, a ...any) {
@@ -334,6 +335,19 @@ func c12Run(t *testing.T, sc c12Scenario, c *vsched.Chooser) vsched.Outcome {
 				}
 			case c12FailEv:
 				before := len(w.snapshot())
+				if sc.strategy == "mc" && !paused {
+					n := 0
+					for _, e := range w.snapshot() {
+						if e.kind == "recv" && e.what != "poststart" {
+							n++
+						}
+					}
+					// the failing message is the N-th one: the manager's passivation and the
+					// supervisor's suspension race in real time (two goroutines woken by the same
+					// turn). Both outcomes are legal; the step is judged, then the sequence is cut so
+					// that the exploration stays a deterministic function of the choices.
+					racyCut = n+1 >= c12N
+				}
 				if Tell(ctx, x, new(c12Fail)) == nil {
 					vfSettle()
 					check() // a passivation racing the suspension (message-count reached by the failing message) is legal
@@ -368,7 +382,7 @@ func c12Run(t *testing.T, sc c12Scenario, c *vsched.Chooser) vsched.Outcome {
 				out.Invalid = fmt.Sprintf("model/implementation disagree on suspended (%v vs %v) after [%s]", suspended, x.IsSuspended(), strings.Join(trace, " "))
 			}
 			check()
-			if stopping && !sc.killGate {
+			if (stopping && !sc.killGate) || racyCut {
 				break
 			}
 		}
@@ -421,6 +435,16 @@ func c12Run(t *testing.T, sc c12Scenario, c *vsched.Chooser) vsched.Outcome {
 		}
 		fmt.Fprintf(&sb, "| passivated=%v paused=%v suspended=%v killed=%v", passivated, paused, suspended, stopping && !passivated)
 		out.Obs = sc.name + " " + sb.String()
+		if racyCut {
+			// outcome-independent observation: the handled messages only
+			var cb strings.Builder
+			for _, e := range log {
+				if e.kind == "recv" {
+					fmt.Fprintf(&cb, "r%s@%d ", e.what, e.at.Sub(t0).Nanoseconds())
+				}
+			}
+			out.Obs = sc.name + " " + cb.String() + "| cut: the failing message completes the message count (passivation races suspension)"
+		}
 		out.Violations = viol
 		if err := vfStopSystem(sys); err != nil && !errors.Is(err, context.Canceled) {
 			panic(err)
@@ -452,7 +476,7 @@ func TestVerifC12(t *testing.T) {
 		{name: "longlived", strategy: "ll", alphabet: []c12Ev{c12Tell, c12AdvTp1, c12Pause, c12Resume, c12FailEv, c12Reinstate}, depth: vsched.Pick(4, 6)},
 		{name: "tb-slow", strategy: "tb", alphabet: []c12Ev{c12Tell, c12TellSlow, c12Adv100, c12AdvTm100m1, c12AdvTm1, c12AdvTp1}, depth: vsched.Pick(5, 7)},
 		{name: "tb-pause", strategy: "tb", alphabet: []c12Ev{c12Tell, c12Adv100, c12AdvTm1, c12AdvTp1, c12Pause, c12Resume}, depth: vsched.Pick(5, 7)},
-		{name: "mc", strategy: "mc", alphabet: []c12Ev{c12Tell, c12AdvTp1, c12Pause, c12Resume, c12FailEv, c12Reinstate, c12Kill}, depth: vsched.Pick(5, 6)},
+		{name: "mc", strategy: "mc", alphabet: []c12Ev{c12Tell, c12AdvTp1, c12Pause, c12Resume, c12FailEv, c12Reinstate, c12Kill}, depth: vsched.Pick(5, 7)},
 		{name: "tb-suspend", strategy: "tb", alphabet: []c12Ev{c12Tell, c12AdvTm1, c12AdvTp1, c12Pause, c12Resume, c12FailEv, c12Reinstate}, depth: vsched.Pick(5, 6)},
 	}
 	var scs []vsched.Scenario
